@@ -10,6 +10,7 @@ import (
 	"encoding/json"
 	"fmt"
 	"os"
+	"path/filepath"
 )
 
 type vfAssumeFailed struct{}
@@ -112,6 +113,59 @@ func vfSpawnCount() int   { return 0 }
 func vfRunSpawned(i int)  {}
 func vfDropSpawned()      {}
 func vfChanUnbounded()    {}
+
+// --- file system: the executor has an in-memory model; natively a temporary directory is used ---
+
+var vfFSTmp string
+
+// vfFSDir returns the data directory of this run (created empty on first use per case).
+func vfFSDir() string {
+	if vfFSTmp == "" {
+		d, err := os.MkdirTemp("", "vfdata")
+		if err != nil {
+			panic(err)
+		}
+		vfFSTmp = d
+	}
+	return vfFSTmp
+}
+
+func vfFSReset() {
+	if vfFSTmp != "" {
+		_ = os.RemoveAll(vfFSTmp)
+		vfFSTmp = ""
+	}
+}
+
+func vfFSWrite(name string, data []byte) {
+	if err := os.WriteFile(name, data, 0644); err != nil {
+		panic(err)
+	}
+}
+
+func vfFSRead(name string) []byte {
+	b, err := os.ReadFile(name)
+	if err != nil {
+		return nil
+	}
+	return b
+}
+
+func vfFSExists(name string) bool {
+	_, err := os.Stat(name)
+	return err == nil
+}
+
+func vfFSRemove(name string) { _ = os.Remove(name) }
+
+// crash images exist only under the executor
+func vfFSMutations() int             { return 0 }
+func vfFSMutationName(i int) string  { return "" }
+func vfFSRestore(i int)              {}
+func vfFSMark() int                  { return 0 }
+func vfFSShortReads(n int)           {}
+
+var _ = filepath.Join
 
 var vfHarnesses = map[string]func(){}
 
